@@ -798,6 +798,18 @@ fn gen_malformed(t: &mut Tape) -> Lit {
         18 => (format!("D#2024-{}", *t.pick(&["1", "01", "01-01-01", "13"])), "date.malformed"),
         19 => (format!("TOD#{}", *t.pick(&["1:2", "10:20", "10:20:", ":20:30", "10::30"])), "tod.malformed"),
         20 => (format!("DT#2024-01-01{}", *t.pick(&["", "-10:20", "-10", "T10:20:30", " 10:20:30"])), "dt.malformed"),
+        21 if t.flag() => {
+            // a bit string has no sign (bit_string_literal takes an unsigned or a based integer); nor has a based integer
+            let ty = *t.pick(&["BYTE", "WORD", "DWORD", "LWORD", "byte", "Word"]);
+            let sg = *t.pick(&["-", "+"]);
+            let body = match t.below(4) {
+                0 => format!("{}#{}{}", ty, sg, d),
+                1 => format!("{}#{}{}", ty, sg, *t.pick(&["0", "65_536", "255", "1"])),
+                2 => format!("{}#{}16#{}", ty, sg, *t.pick(&["FF", "1", "0"])),
+                _ => format!("{}{}#{}", sg.replace('+', "-"), *t.pick(&["16", "8", "2"]), *t.pick(&["1", "10", "0"])).replacen('-', "16#-", 1).replace("16#-16#", "16#-").replace("16#-8#", "8#-").replace("16#-2#", "2#-"),
+            };
+            (body, "bitstring.signed")
+        }
         _ => (format!("{}{}", *t.pick(&["0x", "INT#", "16# ", "BOOL#"]), *t.pick(&["10", "", "FF"])), "integer.foreign-notation"),
     };
     // (a few of the generated texts are well-formed by accident - `INT#10`, `BOOL#10` is C09's BOOL# family)
